@@ -4,7 +4,8 @@ from __future__ import annotations
 
 import itertools
 
-from .. import impl
+from .. import automata as A
+from .. import e1, impl, linelang, refmodel
 from ..chartgen import mk
 
 ID = "C14"
@@ -83,6 +84,8 @@ def plan(tier, seed):
         for gi in range(len(GARBAGE[sec]) + 1):
             shards.append(("ins", sec, gi, mult))
     shards.append(("pairs", mult))
+    shards.append(("disjoint",))
+    shards.append(("conservation",))
     return dict(shards=shards, bounds=dict(base_lines=5, insertion_points=6, multiplicity=mult, garbage={k: v for k, v in GARBAGE.items()}), budget_s=600)
 
 
@@ -104,7 +107,69 @@ def check(ctx, sec, lines, k, base_text, o0, w0, what):
         ctx.violation(key, dict(base=base_text, text=text, k=k), "%s: %s" % (what, why), script=SCRIPT.format(observe_src=impl.OBSERVE_SRC, base=base_text, text=text, k=k))
 
 
+CONS_DROP = ("hopo", "sp", "sustain", "longest", "end_tick", "us", "bpm", "upper", "lower", "value", "lanes", "metadata")
+CANON = dict(sync=dict(B="0 = B 1", TS="0 = TS 1", A="0 = A 1"), track=dict(N="0 = N 0 0", S="0 = S 2 0", E="0 = E x"))
+
+
+def _disjoint(ctx):
+    """E3: no string (of any length) is claimed by two recognisers of the sync / instrument section."""
+    for sec in ("sync", "track"):
+        try:
+            pats = A.capture_section(sec)
+            nfas = [A.from_compiled(p) for p in pats]
+        except A.Unsupported as e:
+            ctx.hist["E3_unavailable(%s)" % e] += 1
+            continue
+        total = 0
+        for (i, p), (j, q) in __import__("itertools").combinations(list(enumerate(pats)), 2):
+            g = A.explore([nfas[i], nfas[j]])
+            ctx.nodes += len(g.states)
+            ctx.edges += g.transitions
+            ctx.evaluations += 1
+            ctx.hist["disjointness_products"] += 1
+            for nfa, pat in ((nfas[i], p), (nfas[j], q)):
+                total += A.conform_fast(pat, A.DFA(nfa), A.short_strings(g.reps, 5))
+            both = [g.wit[k] for k, acc in enumerate(g.acc) if all(acc)]
+            if both:
+                w = both[0]
+                # replay on the real line parsers: which public classes return a datum for w?
+                claim = []
+                for kind, cls in linelang.kind_classes(sec):
+                    try:
+                        cls.ParsedData.from_chart_line(w)
+                        claim.append(kind)
+                    except impl.P.RegexNotMatchError:
+                        pass
+                    except Exception:  # noqa: BLE001
+                        claim.append(kind + "(raises)")
+                ctx.executions += 1
+                if len(claim) >= 2 or not linelang.check_api():
+                    ctx.violation("kinds-overlap", dict(kind="overlap", section=sec, line=w), "%s section: line %r is claimed by the recognisers %r and %r (real line parsers: %r): the outcome depends on the trial order" % (sec, w, p.pattern, q.pattern, claim), script="line = %r\nfrom chartparse.exceptions import RegexNotMatchError\nfrom chartparse.instrument import NoteEvent, StarPowerEvent, TrackEvent\nfrom chartparse.sync import BPMEvent, TimeSignatureEvent, AnchorEvent\nn = 0\nfor cls in (%s):\n    try:\n        cls.ParsedData.from_chart_line(line); n += 1; print('claimed by', cls.__name__)\n    except RegexNotMatchError:\n        pass\n    except Exception as e:\n        n += 1; print('claimed by', cls.__name__, 'then', type(e).__name__)\nsys.exit(1 if n >= 2 else 0)\n" % (w, "BPMEvent, TimeSignatureEvent, AnchorEvent" if sec == "sync" else "NoteEvent, StarPowerEvent, TrackEvent"))
+        ctx.extra["translator_vs_regex_engine_strings_" + sec] = total
+
+
+def _conservation(ctx):
+    """Every base line contributes exactly one datum to exactly one kind: the base parse equals the
+    reference model (ticks / values / lanes only), and so - transitively - does every insertion case."""
+    base_text = text_with("sync", BASE["sync"])
+    res = refmodel.model(base_text)
+    ctx.case(("conservation", base_text), sample=dict(base=BASE))
+    ctx.evaluations += 1
+    e1.check_model(ctx, "claimed-once", base_text, res, msg="base chart: every line must contribute exactly one datum to exactly one kind", drop=CONS_DROP)
+    # each single line alone in its section, too (a line claimed by two kinds shows up as an extra event)
+    for sec in ("events", "track"):
+        for ln in BASE[sec]:
+            text = mk(res=4, sync=BASE["sync"], events=[ln] if sec == "events" else [], tracks={"ExpertSingle": [ln] if sec == "track" else []})
+            ctx.case(("conservation", text))
+            ctx.evaluations += 1
+            e1.check_model(ctx, "claimed-once", text, refmodel.model(text), msg="single line %r in the %s section" % (ln, sec), drop=CONS_DROP)
+
+
 def run_shard(shard, ctx):
+    if shard[0] == "disjoint":
+        return _disjoint(ctx)
+    if shard[0] == "conservation":
+        return _conservation(ctx)
     base_text = text_with("sync", BASE["sync"])
     o0, w0 = run(base_text)
     if shard[0] == "ins":
@@ -138,6 +203,19 @@ def run_shard(shard, ctx):
 
 
 def replay(case):
+    if case.get("kind") == "overlap":
+        n = 0
+        for kind, cls in linelang.kind_classes(case["section"]):
+            try:
+                cls.ParsedData.from_chart_line(case["line"])
+                n += 1
+            except impl.P.RegexNotMatchError:
+                pass
+            except Exception:  # noqa: BLE001
+                n += 1
+        return [dict(key="kinds-overlap", msg="still claimed by %d kinds" % n, case=case)] if n >= 2 else []
+    if "acceptable" in case:
+        return e1.replay_model_case(case, "claimed-once")
     o0, w0 = run(case["base"])
     o1, w1 = run(case["text"])
     if o0 == o1 and w1 - w0 == case["k"]:
